@@ -187,6 +187,24 @@ func scenarios() []*sched.Scenario {
 		vrt.Quiesce()
 		checkSorted(s, w)
 	})
+	add("sortedset/removed-element-weight-change-and-readd", false, func() {
+		w := map[int]reactive.Variable[int]{1: reactive.NewVariable[int](), 2: reactive.NewVariable[int](), 3: reactive.NewVariable[int]()}
+		w[1].Set(10)
+		w[2].Set(20)
+		w[3].Set(30)
+		s := reactive.NewSortedSet(func(e int) reactive.Variable[int] { return w[e] })
+		s.Add(1)
+		s.Add(2)
+		s.Delete(1)
+		vrt.Par(
+			func() { w[1].Set(50) }, // weight of an element that is no longer a member
+			func() { s.Add(3); w[2].Set(40) },
+			func() { w[3].Set(5) },
+		)
+		s.Add(1) // re-added with its current weight
+		vrt.Quiesce()
+		checkSorted(s, w)
+	})
 	add("waitgroup/add-done-readd", false, func() {
 		wg := reactive.NewWaitGroup(1)
 		vrt.Par(
